@@ -22,7 +22,8 @@ PROPS = {
                 "peers write with random segmentation (1 byte .. whole message) and unchoke after a random delay; in 2/3 of the runs one honest peer "
                 "leaves once all pieces are stored, in 1/3 everybody stays; one run in six is a crowd of 2..15 leechers (every piece at exactly one of "
                 "them, all interested in us, all staying: more listed peers than the client connects to at once), one in seven a slow seeder with late, fast twins (the seeder has everything and answers slowly, every other peer has exactly one piece, is slow to accept the connection and then answers at once; the last piece is at the seeder only: the seeder loses the race for the piece it was asked first, is cancelled and must go on with another), one in eight a torrent of 8 or 16 pieces (a bitfield without spare bits); observed: SHA-1 of every output file (compared with the model's "
-                "extractSpec of the content), panics of any task (panic hook), the session still running; distinct = distinct argument lines",
+                "extractSpec of the content), panics of any task (panic hook), the session still running; distinct = distinct argument lines"
+                + " Twenty-four runs per quick check over eight families.",
         "assumptions": STD_ASSUME_PURE + ["liveness on the real runtime is observed, not proved: tokio scheduling, TCP, reqwest, timers and the OS are outside the model",
                                            "SHA-1 collision freedom on the torrent's pieces is an explicit hypothesis of T1",
                                            "peers that stay connected without serving what they were asked for are outside the property's hypothesis (honest or disconnecting)",
@@ -35,7 +36,8 @@ PROPS = {
                 "boundaries, several files inside one piece, zero-length files), random content; the harness writes the correct piece files into a "
                 "scratch directory, runs the real extractor (ex) and returns every output file's bytes; geo = pieces_num, total_length, "
                 "piece_length(i) for every i and file_piece_ranges; compared with extractImpl/pieceLength (correspondence) and with extractSpec = "
-                "content slices (oracle); distinct = distinct argument lines",
+                "content slices (oracle); distinct = distinct argument lines"
+                + " A third of the extractions (`exs`) run in a directory that already holds longer versions of the output files.",
         "assumptions": STD_ASSUME_PURE + ["the piece files hold the verified pieces (C01); std::fs read/seek/write behave as a byte array"],
     },
     "C04": {
@@ -56,7 +58,8 @@ PROPS = {
                 "with a key spelled 'info' (before and after the real one in byte order), values in front of the dictionary (ints, the string 'info', "
                 "lists holding dictionaries with an 'info' key, dictionaries with a non-dictionary 'info'), a second 'info' key, data after the "
                 "dictionary; the generator records the byte span of the real info value; compared: generator span = model span (rawInfo), "
-                "Metainfo::info_hash() = SHA-1 (Lean implementation) of that span; accept/reject and error kind vs the model; distinct = distinct documents",
+                "Metainfo::info_hash() = SHA-1 (Lean implementation) of that span; accept/reject and error kind vs the model; distinct = distinct documents"
+                + " Top-level values spelled `info` in front of and behind the real entry.",
         "assumptions": STD_ASSUME_PURE + ["SHA-1 itself is outside the model (sha1_smol vs the driver's own SHA-1 are compared on every case)",
                                            "documents that end inside a list or dictionary (finding C16-F1) have no terminated info value; the span then runs to the end of the data"],
     },
@@ -80,7 +83,8 @@ PROPS = {
                 "prefix, garbage}, optionally truncated; ops: pf = feed + one parse_frame (vs model parseFrame); st = in-memory stream cut "
                 "exactly at the given points, next chunk written only when recv_frame is pending (vs model run, oracle decodeAll of the "
                 "concatenation, retained-buffer list vs model and < 65540); every single cut point of streams <= 48 bytes; tcp = same over a "
-                "real loopback TcpStream (socket branch of recv_frame); distinct = distinct argument lines",
+                "real loopback TcpStream (socket branch of recv_frame); distinct = distinct argument lines"
+                + " Half of the loopback-TCP cases (`tcps`) poll `recv_frame` inside a `select!` next to a 3 ms timer while the stream arrives in parts (the way the connection task polls it).",
         "assumptions": STD_ASSUME_PURE + [
             "tokio read_buf is cancel-safe and delivers bytes in order; one OS read appends at most the spare capacity on top of the retained prefix",
             "the in-memory stream branch of recv_frame added by the hook mirrors the socket branch; the socket branch itself is exercised by the tcp op",
@@ -96,7 +100,8 @@ PROPS = {
                 "followed by the kill); after EVERY command reply + full snapshot (statuses; per peer piece_index, choked, am_interested, "
                 "interested) are compared with the model; the implementation's random pick is read from the reply and checked admissible (C13); "
                 "oracle on the implementation's own snapshot: Have absorbing, every Reserved has an unchoked peer asked for it, requests name "
-                "advertised+lacking pieces, no panic; distinct = distinct histories",
+                "advertised+lacking pieces, no panic; distinct = distinct histories"
+                + " The closed-loop `sys` runs include a `recall` family (far from the end game a peer offering one piece unchokes twice, then serves the old requests); oracle (v): a reply that reveals that the chooser answered nothing is a violation when an eligible piece exists.",
         "assumptions": STD_ASSUME_PURE + ["addresses of live connections are distinct (a reconnect from the same ip:port before the old KillReq is handled is outside the model)",
                                            "the connection task clears piece_rx exactly as modelled (tied by the handler-level checks C01/C10)"],
     },
@@ -106,7 +111,8 @@ PROPS = {
         "rule": "random manager states: 3..40 pieces with status mixes in four regimes (mostly missing .. nearly done, and exactly 9/10/11 non-Have "
                 "pieces around END_GAME_LIMIT), 1..6 peers with random advertised sets of density 10..95%, a target peer; the real "
                 "Session::choose_piece_index is called 8 times per state (different shuffles); every answer must lie in the admissible set of the "
-                "theorem (eligible and of minimal availability; none iff nothing eligible); distinct = distinct argument lines",
+                "theorem (eligible and of minimal availability; none iff nothing eligible); distinct = distinct argument lines"
+                + " Oracle (v) on the manager histories: a reply that reveals that the chooser answered nothing (after Unchoke, Have from a peer we are not interested in, Bitfield, piece stored/cancelled, NotInterested) is a violation when an eligible piece exists.",
         "assumptions": STD_ASSUME_PURE + ["rand's shuffle returns a permutation (any permutation is covered by the theorem)",
                                            "'being fetched from another peer' is read as the manager's own Reserved bookkeeping (its truthfulness is C12)"],
     },
@@ -121,7 +127,8 @@ PROPS = {
                 "included, random vector order) and an admissible new_optimistic choice read from the implementation's own snapshot; after EVERY "
                 "op the full snapshot (am_choked, interested, optimistic per peer), for rotations also the sorted order and the broadcast "
                 "am_choked_map, are compared with the model; oracle T1 (slot bounds) on every snapshot, T2/T3 on every rotation; "
-                "distinct = distinct histories",
+                "distinct = distinct histories"
+                + " Rotation ticks run with all-owned, nothing-owned, end-game (nothing Missing, something Reserved) and mixed statuses; view oracle: outside a rotation the choke flag on record changes only together with the Unchoke that answers this peer's bitfield.",
         "assumptions": STD_ASSUME_PURE + ["broadcast channel never overflows (each connection task sees every SendOwnState), see DESIGN.md C11/C14",
                                            "new_optimistic_peers returns at most MAX_OPTIMISTIC peers, each currently choked and interested (read off the code: choose() of that filtered list)"],
     },
@@ -139,7 +146,8 @@ PROPS = {
                 "listed hashes, blocks correct / corrupt / duplicated / overlapping / unrequested / mis-indexed / truncated, several pieces per "
                 "connection, cancellation by broadcast, disconnect at any point; observed: every *.piece file written (name, SHA-1 recomputed by the "
                 "harness, length), PieceDone commands, termination; monitor P01 on the implementation's and the model's trace; manager side by the "
-                "C12 histories; distinct = distinct scripts",
+                "C12 histories; distinct = distinct scripts"
+                + " Added in rounds 6/7 of the seeded evaluation: a third of the task scripts run in a download directory that already holds a stale, partial file under the name of every piece being fetched; now and then a piece of more than 2 MiB is served in order (the stored length and hash are observed from the file); blocks of another piece at exactly the offset and length of an outstanding request.",
         "assumptions": STD_ASSUME_PURE + ["external modification of *.piece files and SHA-1 collisions are outside; sha1 is a parameter of every theorem"],
     },
     "C11": {
@@ -157,7 +165,8 @@ PROPS = {
                 "the tiling predicate; (b) scripts for the real connection task: assignments (unchoke / have / piece-done / cancel replies) of pieces "
                 "of length {1,100,B-1,B,B+1,20000,2B,2B+1,40000,3B,5B+7}, blocks answered in random order, duplicated, withheld, foreign index or "
                 "offset, corrupt payload, cancellation by a broadcast Have, chokes; Request frames observed on the in-memory stream; the monitor P10 "
-                "evaluated on the implementation's trace and on the model's trace; distinct = distinct lines",
+                "evaluated on the implementation's trace and on the model's trace; distinct = distinct lines"
+                + " Added in rounds 6/7: stale piece files in the download directory, a piece of more than 2 MiB now and then, blocks of another piece at exactly the offset and length of an outstanding request.",
         "assumptions": STD_ASSUME_PURE + ["piece length handed to the task is Metainfo::piece_length(i) (C03)"],
     },
     "C09": {
@@ -179,7 +188,8 @@ PROPS = {
         "rule": "scripts for the real connection task (in-memory stream, scripted manager): incoming and outgoing connections; frames before any "
                 "handshake (bitfield, interested, request, unchoke, keep-alive, broadcast have); handshakes that are valid, carry another "
                 "info-hash, another peer id, are repeated or absent; then ordinary traffic incl. requests for stored pieces; per event outputs "
-                "compared with the model; the predicate P08 of the theorem evaluated on the implementation's own trace; distinct = distinct scripts",
+                "compared with the model; the predicate P08 of the theorem evaluated on the implementation's own trace; distinct = distinct scripts"
+                + " Added: `reconn` (the real run_incoming over loopback TCP: valid session, disconnect, no piece data without a handshake on any later connection) and `accept` (the real Session::run with its listener: eleven interesting listed peers fill the slots, the first listed stays queued; connections made to the client from the queued candidate's own address and from an unrelated one: bytes before the peer's handshake, answer to a foreign and to a valid handshake).",
         "assumptions": STD_ASSUME_PURE + ["a wrong protocol string is a decode error (C06); the manager forgets the peer on KillReq (kill step, C12)"],
     },
     "C15": {
@@ -197,7 +207,8 @@ PROPS = {
         "rule": "EXHAUSTIVE over all strings over the alphabet {0 1 9 i l d e : - a} up to length 4 (quick; 6 in thorough = 1.1 M strings), plus random "
                 "strings of length 5..12 over that alphabet, truncations at a random position and single-byte mutations of valid documents; "
                 "BDecoder::from_array result (accept/reject and the decoded values) compared with the strict grammar (oracle) and the implementation "
-                "model; inputs inside the recorded class EofInsideContainer are reported as KNOWN-FINDING; distinct = distinct inputs",
+                "model; inputs inside the recorded class EofInsideContainer are reported as KNOWN-FINDING; distinct = distinct inputs"
+                + " Directed and generated dictionaries that repeat a key (the later entry replaces the earlier one).",
         "assumptions": STD_ASSUME_PURE + ["stack overflow on nesting depth ~10^4+ is an abort, not a Rust panic, and is outside the model"],
     },
     "C18": {
@@ -208,7 +219,8 @@ PROPS = {
                 "paths, one or several query pairs, empty query, escaped and '+' query values); url = create_url (hook) compared with the model and "
                 "with the oracle 'base unchanged, decoded query pairs = announce pairs then info_hash = the 20 bytes'; every 25th case (20th in the "
                 "thorough tier) req = the real TrackerClient::run against a loopback HTTP listener: request target and Host header compared with "
-                "the model's requestUrl (incl. peer_id, port = PORT, left = total length) and the same oracle; distinct = distinct argument lines",
+                "the model's requestUrl (incl. peer_id, port = PORT, left = total length) and the same oracle; distinct = distinct argument lines"
+                + " Announce queries are generated (keys that are, contain or are contained in the client's own parameter names); `sreq`: the announce the real Session makes after its last connection is lost, with pieces already owned (`left` = the total length or the bytes of the pieces not owned).",
         "assumptions": STD_ASSUME_PURE + ["the url and reqwest crates (URL parsing, extend_pairs, HTTP/1.1 request line) are outside the model; the loopback "
                                            "requests observe them for the generated announce forms",
                                            "announce URLs without fragment ('#') and with a syntactically valid query"],
@@ -231,7 +243,8 @@ PROPS = {
                 "listed peers) is e2e: the real Session::run in a child process against a loopback tracker that fails k times (HTTP 500, garbage, failure "
                 "reason, non-UTF-8 reason, connection closed) before a good reply; observed: number of announces, whether a new connection to the "
                 "listening port gets its handshake answered while announces fail, and handshakes arriving at the listed fake peers; compared with "
-                "the retry model's prediction (manager free in every state, run ends contacted); distinct = distinct argument lines",
+                "the retry model's prediction (manager free in every state, run ends contacted); distinct = distinct argument lines"
+                + " Reply bodies with length prefixes that cannot be backed by data nor allocated; `cand` histories include a crowd family (12-14 interesting peers before a reply).",
         "assumptions": STD_ASSUME_PURE + ["part 2 (retry protocol) is a hand-abstracted model of tokio::spawn / mpsc / JoinHandle semantics; its only tie to "
                                            "the runtime is the e2e run (real time, 1 s per failed announce), so T4 is partial with respect to the real scheduler",
                                            "port 6881 is free on the machine (runs are serialised by a lock file)"],
@@ -244,7 +257,8 @@ PROPS = {
                 "kinds (keep-alive, interested, not-interested, choke, have, cancel, unchoke) so that silence falls at the start, in the middle and "
                 "at the end; incoming and outgoing connections; per event the frames written, commands sent and the termination are compared "
                 "with the model, and the keep-alive predicate P20 (the one the theorem is about) is evaluated on the implementation's own trace; "
-                "distinct = distinct scripts",
+                "distinct = distinct scripts"
+                + " Added: pieces assigned to connections that then fall silent, cancel-and-reassign between ticks, and `fullq`: silent connections whose closing tick falls into a moment when the manager's command channel is full (it must still be told).",
         "assumptions": STD_ASSUME_PURE + ["tokio timers fire in order under the paused clock; a task blocked in a socket write does not poll its timer (outside the model)",
                                            "messages with unknown ids are dropped below the task and do not count as activity"],
     },
@@ -254,7 +268,8 @@ PROPS = {
         "rule": "messages of all eleven kinds with boundary-biased u32 fields (0,1,2^14±1,2^16±1,2^31,2^32-1) and payload sizes "
                 "{0,1,16383,16384,65527,65528,random}; per case one of: serialise (impl bytes vs model `encode` vs BEP3 `layoutSpec`), "
                 "serialise+trailing bytes+`Frame::parse` (vs `parseImpl`, oracle = same message and exact consumed length), "
-                "bit vector -> `from_vec` -> `to_vec` (vs model, oracle = round trip and bit position); distinct = distinct argument lines",
+                "bit vector -> `from_vec` -> `to_vec` (vs model, oracle = round trip and bit position); distinct = distinct argument lines"
+                + " Added: every message kind through the real receive path in two segments (`st`); `snd`: `Connection::send_msg` on a loopback socket with the smallest buffers the OS grants and a remote that starts reading late - the received stream must be the concatenation of the model's encodings; `tcps`: a 16 KiB Piece and small messages arriving in parts while the receive is polled inside `select!`.",
         "assumptions": STD_ASSUME_PURE + ["`usize -> u32` truncation in the `new()` constructors is outside the property's u32 quantifier"],
     },
 }
